@@ -374,3 +374,99 @@ def failure_handler(ctx, prog):
               for t in (s.targets if isinstance(s, ast.Assign) else [s.target])}
     ctx.ob("C17-D3/EFFECT", {w for w in writes if w and w.startswith("self.")} <= {"self._rpc_failures"}, pm.site(),
            "report_failure only updates the failure statistics", detail=str(sorted(map(str, writes))), func=pm.fi.qualname)
+
+
+_base_check_c17 = check
+
+
+def check(ctx):            # noqa: F811  (extends the rules above)
+    _base_check_c17(ctx)
+    codec_exact(ctx, ctx.prog)
+
+
+def codec_exact(ctx, prog):
+    """bencode writer/reader: per type tag the exact framing (prefix, separator, terminator) and the reader's cursor arithmetic"""
+    import ast
+    from ..astutil import norm_text, dotted, is_const
+    from .. import rules as R
+    BE = "lbry.dht.serialization.bencoding"
+    we = ctx.fa(f"{BE}._bencode")
+    d = we.fi.params()[0]
+    kinds = [f"isinstance({d}, int)", f"isinstance({d}, (bytes, bytearray))", f"isinstance({d}, str)", f"isinstance({d}, (list, tuple))", f"isinstance({d}, dict)"]
+    R.effect_table(ctx, "C17-D1/CODEC", we, kinds, [
+        (f"return b'i%de' % {d}", kinds[0], "an int is written i<decimal>e"),
+        (f"return b'%d:%s' % (len({d}), {d})", kinds[1], "bytes are written <length>:<bytes>"),
+        (f"return b'%d:%s' % (len({d}), {d}.encode())", kinds[2], "text is written as its UTF-8 bytes with a length prefix"),
+        ("encoded_list_items = b''", kinds[3], "a list starts empty"),
+        ("encoded_list_items += _bencode(item)", kinds[3], "…every item is appended in order"),
+        ("return b'l%se' % encoded_list_items", kinds[3], "…and framed l…e"),
+        ("encoded_dict_items = b''", kinds[4], "a dict starts empty"),
+        ("encoded_dict_items += _bencode(key)", kinds[4], "…every key …"),
+        (f"encoded_dict_items += _bencode({d}[key])", kinds[4], "… is followed by its value"),
+        ("return b'd%se' % encoded_dict_items", kinds[4], "…and framed d…e"),
+    ], "bencode writer: ")
+    R.refusal_table(ctx, "C17-D1/CODEC", we, [("Cannot bencode", " and ".join("not " + k for k in kinds))], "bencode writer")
+    lps = we.stmts(ast.For)
+    ok = len(lps) == 2 and norm_text(lps[0].iter) == d and norm_text(lps[1].iter) in ("sorted(keys)", f"sorted({d}.keys())", f"sorted({d})")
+    ctx.ob("C17-D1/CODEC", ok, we.site(), "bencode writer: list items in order, dict keys sorted", func=we.fi.qualname, key="C17-D1/CODEC|writer|order")
+    rd = ctx.fa(f"{BE}._bdecode")
+    d, si = rd.fi.params()[:2]
+    tags = [f"{d}[{si}] == ord('i')", f"{d}[{si}] == ord('l')", f"{d}[{si}] == ord('d')"]
+    rows = [
+        (f"end_pos = {d}[{si}:].find(b'e') + {si}", tags[0], "int: the terminator is searched from the tag on (offset added back)"),
+        (f"return (int({d}[{si} + 1:end_pos]), end_pos + 1)", tags[0], "int: the digits between tag and terminator; the cursor moves past the terminator"),
+        (f"{si} += 1", tags[1], "list: the tag is skipped", 0),
+        ("decoded_list = []", "lex:" + tags[1], "list: starts empty"),
+        (f"(list_data, {si}) = _bdecode({d}, {si})", "lex:" + tags[1], "list: each element is decoded at the cursor, which moves behind it"),
+        ("decoded_list.append(list_data)", "lex:" + tags[1], "list: …and appended in order"),
+        (f"return (decoded_list, {si} + 1)", "lex:" + tags[1], "list: the cursor moves past the terminator"),
+        (f"{si} += 1", tags[2], "dict: the tag is skipped", 1),
+        ("decoded_dict = {}", "lex:" + tags[2], "dict: starts empty"),
+        (f"(key, {si}) = _bdecode({d}, {si})", "lex:" + tags[2], "dict: a key is decoded at the cursor …"),
+        (f"(value, {si}) = _bdecode({d}, {si})", "lex:" + tags[2], "dict: … followed by its value"),
+        ("decoded_dict[key] = value", "lex:" + tags[2], "dict: the pair is stored"),
+        (f"split_pos = {d}[{si}:].find(b':') + {si}", " and ".join("not " + t for t in tags), "string: the separator is searched from the cursor on (offset added back)"),
+        (f"length = int({d}[{si}:split_pos])", " and ".join("not " + t for t in tags), "string: the length is the decimal between cursor and separator"),
+        (f"{si} = split_pos + 1", "not length < 0", "string: the payload starts right behind the separator"),
+        (f"end_pos = {si} + length", "not length < 0", "string: …and is `length` bytes long"),
+        (f"return ({d}[{si}:end_pos], end_pos)", "not length < 0", "string: payload slice; the cursor moves behind it"),
+    ]
+    un = any(norm_text(x).startswith(f"list_data, {si} =") for x in rd.stmts(ast.Assign))
+    if un:
+        rows = [((r[0][1:].replace(")", "", 1),) + r[1:]) if r[0].startswith(("(list_data,", "(key,", "(value,")) else r for r in rows]
+    R.effect_table(ctx, "C17-D1/CODEC", rd, tags + ["length < 0", f"{d}[{si}] != ord('e')"], rows, "bencode reader: ")
+    dr = [r for r in rd.stmts(ast.Return) if norm_text(r.value).startswith("(decoded_dict,")]
+    ok = len(dr) == 1 and norm_text(dr[0].value) in (f"(decoded_dict, {si})", f"(decoded_dict, {si} + 1)") and any(pol and R.same_test(t_, tags[2]) for t_, pol in R.lexical_conditions(rd, dr[0]))
+    ctx.ob("C17-D1/CODEC", ok, rd.site(), "bencode reader: dict: the collected pairs are returned with the cursor at (or past) the terminator", func=rd.fi.qualname)
+    wl = rd.stmts(ast.While)
+    ok = len(wl) == 2 and all(R.same_test(w.test, f"{d}[{si}] != ord('e')") and not w.orelse for w in wl)
+    ctx.ob("C17-D1/CODEC", ok, rd.site(), "bencode reader: lists and dicts are read until the terminator 'e'", func=rd.fi.qualname, key="C17-D1/CODEC|reader|until-e")
+    dflt = [norm_text(x) for x in rd.node.args.defaults]
+    ctx.ob("C17-D1/CODEC", dflt == ["0"], rd.site(), "bencode reader: decoding starts at offset 0", func=rd.fi.qualname, key="C17-D1/CODEC|reader|start")
+    R.refusal_table(ctx, "C17-D1/CODEC", rd, [("negative string length", "length < 0")], "bencode reader", extra_terms=tags)
+    bd = ctx.fa(f"{BE}.bdecode")
+    d, nd = bd.fi.params()[:2]
+    R.refusal_table(ctx, "C17-D1/CODEC", bd, [("Cannot decode empty string", f"len({d}) == 0"), ("expected dict", f"not {nd} and not isinstance(result, dict)")], "bdecode", extra_terms=[f"isinstance({d}, bytes)"])
+    R.effect_table(ctx, "C17-D1/CODEC", bd, [f"len({d}) == 0", nd, "isinstance(result, dict)", f"isinstance({d}, bytes)"], [
+        (f"result = _bdecode({d})[0]", f"not len({d}) == 0", "the value decoded at offset 0 is the result"),
+        ("return result", f"not len({d}) == 0", "…and is returned"),
+    ], "bdecode: ")
+    ok = is_const(bd.node.args.defaults[0], False) if bd.node.args.defaults else False
+    ctx.ob("C17-D1/CODEC", ok, bd.site(), "bdecode: a datagram must be a dict unless the caller says otherwise (default False)", func=bd.fi.qualname)
+    for f_ in (rd, bd):
+        hs = [h for t_ in f_.stmts(ast.Try) for h in t_.handlers]
+        ok = len(hs) == 1 and sorted(handler_names(hs[0])) == ["TypeError", "ValueError"] and isinstance(hs[0].body[-1], ast.Raise) and \
+            norm_text(hs[0].body[-1]).startswith("raise DecodeError(") and len(hs[0].body) == 1
+        ctx.ob("C17-D1/CODEC", ok, f_.site(), f"{f_.fi.name}: a malformed number / structure (ValueError, TypeError) is turned into DecodeError — the handler always raises (falling through would "
+               "continue with an unbound local)", func=f_.fi.qualname, key=f"C17-D1/CODEC|{f_.fi.name}|handler-raises")
+    be = ctx.fa(f"{BE}.bencode")
+    r_ = R.single_return_value(be)
+    ctx.ob("C17-D1/CODEC", r_ is not None and norm_text(r_.value) == f"_bencode({be.fi.params()[0]})", be.site(), "bencode returns the encoding of its argument", func=be.fi.qualname)
+    R.refusal_table(ctx, "C17-D1/CODEC", be, [("TypeError", f"not isinstance({be.fi.params()[0]}, dict)")], "bencode")
+    # datagram dispatch in the protocol
+    dr_ = ctx.fa("lbry.dht.protocol.protocol.KademliaProtocol.datagram_received")
+    R.effect_table(ctx, "C17-D2/DISPATCH", dr_, ["isinstance(message, RequestDatagram)", "isinstance(message, ErrorDatagram)", "isinstance(message, ResponseDatagram)"], [
+        ("self.handle_request_datagram(address, message)", "isinstance(message, RequestDatagram)", "a decoded request goes to the request handler"),
+        ("self.handle_error_datagram(address, message)", "not isinstance(message, RequestDatagram) and isinstance(message, ErrorDatagram)", "an error to the error handler"),
+        ("self.handle_response_datagram(address, message)", "not isinstance(message, RequestDatagram) and not isinstance(message, ErrorDatagram)", "anything else (a response) to the response handler"),
+    ], "datagram dispatch: ")
